@@ -335,6 +335,14 @@ class OpsMixin(object):
 
   def equals(self, st, a, b):
     """== on resolved values: z3 Bool, or list of (state, V) when __eq__ is inlined."""
+    from pyvc.values import VSnap
+    if isinstance(a, VSnap) and isinstance(b, VSnap) and a.how == b.how:
+      if a.how == 'dict':
+        k = fresh('eqk', Val)
+        return z3.And(z3.ForAll([k], z3.Select(a.a, k) == z3.Select(b.a, k)),
+                      z3.ForAll([k], z3.Implies(z3.Select(a.a, k), z3.Select(a.b, k) == z3.Select(b.b, k))))
+      i = fresh('eqi', z3.IntSort())
+      return z3.And(a.a == b.a, z3.ForAll([i], z3.Implies(z3.And(0 <= i, i < a.a), z3.Select(a.b, i) == z3.Select(b.b, i))))
     if isinstance(a, VRef) and isinstance(a.cls, ClassInfo):
       m = a.cls.find_method('__eq__')
       if m is not None:
